@@ -1,20 +1,23 @@
 import OrsoVerif.Lemmas.DistogramState
 import OrsoVerif.Lemmas.DistogramRefine
+import OrsoVerif.Lemmas.DistogramFaithful
 import Mathlib.Algebra.Order.Ring.Rat
 import Mathlib.Algebra.Field.Rat
 /-!
 # C13 — Streaming histogram conserves mass, order, bounds and mean
 
-Property theorems only.  They are about the **reference** machine of `Model/Distogram.lean`
-(insert in order, merge the first closest adjacent pair by weighted centroid) over an arbitrary
-linear ordered field `K`, for every bin limit `≥ 1` and every history — a tree of `update`,
-`+` of independently built histograms, bulk loads (numpy's (value, count) pairs and the data's
-bounds are parameters) and dump/load — expressed by `Distogram.Built s L B`: `s` is the state
-reached, `L` the ledger of inserted (value, weight) pairs, `B` the ledger of data bounds.
+Property theorems only, over an arbitrary linear ordered field `K`, for every bin limit `≥ 1` and
+every history — a tree of `update`, `+` of independently built histograms, bulk loads (numpy's
+(value, count) pairs or histogram edges and the data's bounds are parameters) and dump/load.
 
-The faithful machine with the cached differences (`Distogram.update`, …) is executable and is
-compared with the implementation and with the reference on every run; its equality with the
-reference (`refines_reference`, `cache_coherent`) is *not* proved here — see design_notes/C13.md.
+* Stage 1 is about the **reference** machine of `Model/Distogram.lean` (insert in order, merge the
+  first closest adjacent pair by weighted centroid): `Distogram.Built s L B` — `s` is the state
+  reached, `L` the ledger of inserted (value, weight) pairs, `B` the ledger of data bounds.
+* Stage 2 is about the **faithful** machine (the code line by line: cached differences, exact hit,
+  in-place shortcut): `Distogram.FLedger h L B` is the same kind of history for it, and
+  `Distogram.FHist h s L B` runs one history on both machines.  `faithful_*` state the first sentence
+  of the property for the code's own machine, ties or not; `refines_reference` is the second
+  sentence: with a unique closest pair at every step the faithful state *is* the reference state.
 -/
 namespace C13
 open Distogram
@@ -161,6 +164,15 @@ theorem load_over_default_exceeds (bins : List (K × K)) (mn mx : Option K)
     ¬ (load bins mn mx).bins.length ≤ (load bins mn mx).cap := by
   simpa [load] using h
 
+/-- Known finding C13-K01, the other half — what the unchanged tree does and what the tightened predicate of the
+check relies on: **the first update that inserts a bin ends within the limit, however many bins `load()` left**
+(`_trim` is a loop: `Gen.DistogramFlow.trimTurns n = n`); only exact-hit and in-place updates keep a loaded histogram
+above its limit. -/
+theorem inserting_update_restores_capacity {h h' : Hist K} {neg : Bool} {idx : Nat} {v c : K} (hc : Coherent h)
+    (hcap : 1 ≤ h.cap) (hidx : neg = false → h.bins ≠ [] → idx < h.bins.length)
+    (hok : insertTrim h neg idx v c = .ok h') : h'.bins.length ≤ h'.cap :=
+  insertTrim_capacity hc hcap hidx hok
+
 /-- The bare merge does not report exact bounds: `{1, 3} → centre 2`, merged into an empty
 histogram, reports minimum 2 although 1 was inserted. -/
 theorem merge_bounds_not_exact :
@@ -180,6 +192,29 @@ theorem source_merge_arithmetic (v1 f1 v2 f2 : K) :
     Gen.DistogramExpr.inPlaceCentre v1 f1 v2 f2 = centroid v2 f2 v1 f1 ∧
     Gen.DistogramExpr.inPlaceCount v1 f1 v2 f2 = f1 + f2 :=
   ⟨rfl, rfl, (inPlace_centre_eq v1 f1 v2 f2).1, (inPlace_centre_eq v1 f1 v2 f2).2.1, rfl⟩
+
+/-- **The control flow of the source is the control flow of the model** (definitions regenerated from the AST of
+`_trim` and `update` on every run): `_trim` *loops* while there are more bins than the limit; a count `<= 0` is
+rejected; `index` is 0 iff `value <= first centre`, -1 iff `value >= last centre`, else `bisect_left` with the key
+`(value, 1)`; an exact hit is `vi == value` and stores `fi + count`; the in-place shortcut is tried iff
+`index > 0 and len(bins) >= limit` (whether its answer is then taken — `in_place_index > 0` — is followed by the model
+but no theorem depends on it: both outcomes refine the reference); the bounds tests of the source (`min > value`,
+`max < value`, or their non-strict forms) make the bounds the running minimum and maximum. -/
+theorem source_control_flow (n len cap idx : Nat) (neg : Bool) (value first last count vi fi : K) (h : Hist K) :
+    Gen.DistogramFlow.trimTurns n = n ∧
+    (Gen.DistogramFlow.trimGuard len cap = true ↔ cap < len) ∧
+    (Gen.DistogramFlow.updCountBad count = true ↔ count ≤ 0) ∧
+    (Gen.DistogramFlow.updFirst value first last = true ↔ value ≤ first) ∧
+    (Gen.DistogramFlow.updLast value first last = true ↔ last ≤ value) ∧
+    (Gen.DistogramFlow.bisectKeyCount : K) = 1 ∧
+    (Gen.DistogramFlow.hitTest vi value = true ↔ vi = value) ∧
+    Gen.DistogramFlow.hitCount fi count = fi + count ∧
+    Gen.DistogramFlow.inPlaceTry (if neg then -1 else (idx : Int)) len cap = (!neg && decide (0 < idx) && decide (cap ≤ len)) ∧
+    (bumpBounds h value).min = some (minO h.min value) ∧
+    (bumpBounds h value).max = some (maxO h.max value) := by
+  refine ⟨trimTurns_eq n, by simp [Gen.DistogramFlow.trimGuard], by simp [Gen.DistogramFlow.updCountBad],
+    by simp [Gen.DistogramFlow.updFirst], by simp [Gen.DistogramFlow.updLast], rfl, eqK_iff' vi value, rfl,
+    inPlaceTry_eq neg idx len cap, bumpBounds_min h value, bumpBounds_max h value⟩
 
 /-- **cache_coherent**: after every operation of the faithful machine — any tree of successful
 `update`, bare `merge`, `+`, bulk load and dump/load — whenever `diffs` is set the histogram is not
@@ -223,21 +258,98 @@ theorem insert_trim_refines_reference {h h' : Hist K} {v c : K} (hc : Coherent h
     h'.bins = (updateRef h.toR v c).bins :=
   insertTrim_refines hc hi h1 hnohit hok
 
-/-- **refines_reference — PARTIAL.**
-Full statement (the property): `UniqueClosest history → faithful.bins = reference.bins`.
-Proved: a successful `update` on a coherent state with increasing centres, counts ≥ 1 and at most
-`cap` bins produces exactly the reference's bins on the exact-hit path and on the insert + `_trim` path
-(with or without ties), i.e. *unless* it went through the in-place shortcut `_trim_in_place`.
-Missing for that branch: the position argument — when `diff < min_diff` the pair (new value, chosen
-neighbour) is the first closest pair of the list after insertion, which needs `diff1 ≠ diff2` (the new
-value is not equidistant from its neighbours; this is where uniqueness enters) — its arithmetic is
-`source_merge_arithmetic`.  That branch is carried by the correspondence run and the `reference` oracle. -/
-theorem refines_reference_partial {h h' : Hist K} {v c : K} (hc : Coherent h)
-    (hi : h.bins.Pairwise (fun a b => a.1 < b.1)) (h1 : ∀ b ∈ h.bins, 1 ≤ b.2)
-    (hlen : h.bins.length ≤ h.cap) (hok : update h v c = .ok h') :
-    h'.bins = (updateRef h.toR v c).bins ∨
-    ∃ hd ib, (hd = h ∨ computeDiffs h = .ok hd) ∧ 0 < ib ∧ trimInPlace hd v c ib = .ok h' :=
-  update_refines_partial hc hi h1 hlen hok
+/-- **The tie flag is sound**: when the executable tie detection (`tieIn`, what the driver and the harness use
+to decide whether the reference clause is judged) is silent, the smallest adjacent gap is attained once. -/
+theorem tie_detection_sound {l : List (K × K)} (h : tieIn l = false) : UniqueClosest l :=
+  uniqueClosest_of_tieIn h
+
+/-- The fold the driver runs for `+`, `merge` and bulk loads is `mergeRef` with the tie flag `foldTie`. -/
+theorem driver_fold_is_reference (bs : List (K × K)) (s : RState K) (t : Bool) :
+    bs.foldl refStep (s, t) = (mergeRef s bs, t || foldTie s bs) :=
+  refStep_fold bs s t
+
+/-- **The in-place shortcut, and every other path of `update`, merges an adjacent pair**: a successful `update` is
+either exactly the reference update (exact hit; insert + `_trim`, ties or not) or — through `_trim_in_place`, on a
+full histogram — the merge of an adjacent pair `p` of the list after insertion, and `p` is the reference's first
+closest pair as soon as the closest pair is unique. -/
+theorem update_is_adjacent_merge {h h' : Hist K} {v c : K} (hc : Coherent h) (hinv : Inv h.toR)
+    (h1 : ∀ b ∈ h.bins, 1 ≤ b.2) (hok : update h v c = .ok h') :
+    h'.toR = updateRef h.toR v c ∨
+    ∃ p, p + 1 < (insertRef v c h.bins).length ∧ (insertRef v c h.bins).length = h.cap + 1 ∧
+      h'.bins = mergeAt p (insertRef v c h.bins) ∧
+      (UniqueClosest (insertRef v c h.bins) → argminFirst (gaps (insertRef v c h.bins)) = p) ∧
+      h'.min = some (minO h.min v) ∧ h'.max = some (maxO h.max v) ∧ h'.cap = h.cap :=
+  update_shape hc hinv h1 hok
+
+/-- **refines_reference, one step** (every path of `update`, the in-place shortcut included): on a coherent state
+that is valid (`Inv`: increasing centres, positive counts, at most `cap` bins, centres within the bounds) with
+counts ≥ 1, a successful `update` yields the reference's bins, bounds and limit whenever the reference saw a
+unique closest pair (`updateTie … = false`). -/
+theorem refines_reference_step {h h' : Hist K} {v c : K} (hc : Coherent h) (hinv : Inv h.toR)
+    (h1 : ∀ b ∈ h.bins, 1 ≤ b.2) (hok : update h v c = .ok h') (hnt : updateTie h.toR v c = false) :
+    h'.toR = updateRef h.toR v c :=
+  update_sim hc hinv h1 hok hnt
+
+/-- The bare `merge` (and the fold inside `+` and bulk loads) refines the reference fold. -/
+theorem merge_refines_reference {h h' : Hist K} (bs : List (K × K)) (hc : Coherent h) (hinv : Inv h.toR)
+    (h1 : ∀ b ∈ h.bins, 1 ≤ b.2) (hb : ∀ b ∈ bs, 1 ≤ b.2) (hok : merge h bs = .ok h')
+    (hnt : foldTie h.toR bs = false) : h'.toR = mergeRef h.toR bs :=
+  fold_sim bs hc hinv h1 hb hok hnt
+
+/-- **refines_reference** (the property's second sentence, whole histories): for every history of `update`, `+`
+of independently built histograms, bulk loads and dump/load run on both machines in which the reference never saw
+a second closest pair, the faithful machine's state — bins, minimum, maximum, limit — **is** the reference
+machine's state; the history is a `Built` history, so every stage-1 theorem holds of the faithful state. -/
+theorem refines_reference {h : Hist K} (hb : FHist h s L B) : h.toR = s ∧ Built s L B :=
+  ⟨(fhist_sim hb).1, (fhist_sim hb).2.1⟩
+
+/-- One step of the faithful invariants, ties or not. -/
+theorem faithful_update_conserves {h h' : Hist K} {v c : K} (hc : Coherent h) (hinv : Inv h.toR)
+    (h1 : ∀ b ∈ h.bins, 1 ≤ b.2) (hc1 : 1 ≤ c) (hok : update h v c = .ok h') :
+    Inv h'.toR ∧ (∀ b ∈ h'.bins, 1 ≤ b.2) ∧ mass h'.bins = mass h.bins + c ∧ wsum h'.bins = wsum h.bins + v * c ∧
+    h'.min = some (minO h.min v) ∧ h'.max = some (maxO h.max v) ∧ h'.cap = h.cap :=
+  update_inv hc hinv h1 hc1 hok
+
+/-- **Bins strictly increasing and no more than the configured maximum — for the code's own machine**, after every
+history (`FLedger`), whichever pairs were merged (ties, in-place shortcut, cached differences). -/
+theorem faithful_order_and_capacity {h : Hist K} (hb : FLedger h L B) :
+    h.bins.Pairwise (fun a b => a.1 < b.1) ∧ h.bins.length ≤ h.cap ∧ ∀ b ∈ h.bins, 1 ≤ b.2 :=
+  ⟨(fledger_facts hb).2.1.inc, (fledger_facts hb).2.1.len, (fledger_facts hb).2.2.1⟩
+
+/-- **Mass, weighted sum and mean — for the code's own machine**, after every history. -/
+theorem faithful_mass_and_mean {h : Hist K} (hb : FLedger h L B) :
+    mass h.bins = mass L ∧ wsum h.bins = wsum L ∧ wsum h.bins / mass h.bins = wsum L / mass L := by
+  have hf := fledger_facts hb
+  exact ⟨hf.2.2.2.1, hf.2.2.2.2.1, by rw [hf.2.2.2.1, hf.2.2.2.2.1]⟩
+
+/-- **Exact minimum and maximum, every centre between them — for the code's own machine**, after every history. -/
+theorem faithful_bounds {h : Hist K} (hb : FLedger h L B) :
+    (∀ m, h.min = some m → m ∈ B ∧ ∀ b ∈ B, m ≤ b) ∧ (h.min = none → B = []) ∧
+    (∀ M, h.max = some M → M ∈ B ∧ ∀ b ∈ B, b ≤ M) ∧ (h.max = none → B = []) ∧
+    (∀ m M, h.min = some m → h.max = some M → ∀ b ∈ h.bins, m ≤ b.1 ∧ b.1 ≤ M) := by
+  have hf := fledger_facts hb
+  refine ⟨?_, ?_, ?_, ?_, hf.2.1.within⟩
+  · intro m hm; have := hf.2.2.2.2.2.1; rw [hm] at this; exact this
+  · intro hm; have := hf.2.2.2.2.2.1; rw [hm] at this; exact this
+  · intro m hm; have := hf.2.2.2.2.2.2; rw [hm] at this; exact this
+  · intro hm; have := hf.2.2.2.2.2.2; rw [hm] at this; exact this
+
+/-- **Bulk load above the direct-insert threshold** (numpy.histogram's `edges` and `counts` are parameters, all
+edges inside the data's range `[lo, hi]`): it is a ledger step that inserts the midpoints the source computes with
+their counts, so the weighted mean of the bins is the true mean *of the inserted midpoints* — exactly — and all the
+other clauses hold of the result (`faithful_*`). -/
+theorem bulk_above_threshold_mean {h h' : Hist K} (edges counts : List K) (lo hi : K) (hs : FLedger h L B)
+    (hlh : lo ≤ hi) (he : ∀ e ∈ edges, lo ≤ e ∧ e ≤ hi) (hcn : ∀ c ∈ counts, 0 < c → 1 ≤ c)
+    (hok : bulk h ((midpoints edges).zip counts) lo hi = .ok h') :
+    let ins := ((midpoints edges).zip counts).filter (fun p => decide (0 < p.2))
+    FLedger h' (L ++ ins) (B ++ [lo, hi]) ∧ (∀ p ∈ ins, lo ≤ p.1 ∧ p.1 ≤ hi) ∧
+    wsum h'.bins / mass h'.bins = (wsum L + wsum ins) / (mass L + mass ins) := by
+  have hl := fledger_bulk_histogram edges counts lo hi hs hlh he hcn hok
+  have hf := fledger_facts hl
+  refine ⟨hl, ?_, ?_⟩
+  · intro p hp
+    exact midpoints_within he p.1 (List.of_mem_zip (List.mem_filter.mp hp).1).1
+  · rw [hf.2.2.2.1, hf.2.2.2.2.1, mass_append, wsum_append]
 
 /-- Non-vacuity of stage 2: a faithful history with an in-place merge, an exact hit, an insert + trim and
 a dump/load succeeds, is `FBuilt`, and equals the reference on it. -/
@@ -251,6 +363,21 @@ example :
      .ok (h6.bins, h6.diffs, h6.minDiff))
       = .ok ([(0, 1), (81 / 5, 5), (40, 1)], some [81 / 5, 119 / 5], some (81 / 5)) := by
   decide +kernel
+
+/-- Non-vacuity of `FHist` / `FLedger`: the history above up to the in-place merge runs on both machines without
+a tie, and the states agree. -/
+example :
+    ∃ h : Hist ℚ, FHist h (updateRef (updateRef (updateRef (updateRef (RState.init 3) 0 1) 10 1) 20 1) 11 1)
+      ([] ++ [(0, 1)] ++ [(10, 1)] ++ [(20, 1)] ++ [(11, 1)]) ([] ++ [0] ++ [10] ++ [20] ++ [11]) ∧
+      h.bins = [(0, 1), (21 / 2, 2), (20, 1)] := by
+  refine ⟨_, FHist.update (h' := ⟨[(0, 1), (21 / 2, 2), (20, 1)], some 0, some 20, some [21 / 2, 19 / 2], some (19 / 2), 3⟩)
+    11 1 (FHist.update (h' := ⟨[(0, 1), (10, 1), (20, 1)], some 0, some 20, none, none, 3⟩) 20 1
+      (FHist.update (h' := ⟨[(0, 1), (10, 1)], some 0, some 10, none, none, 3⟩) 10 1
+        (FHist.update (h' := ⟨[(0, 1)], some 0, some 0, none, none, 3⟩) 0 1 (FHist.init 3 (by decide)) (le_refl _)
+          (by decide +kernel) (by decide +kernel))
+        (le_refl _) (by decide +kernel) (by decide +kernel))
+      (le_refl _) (by decide +kernel) (by decide +kernel))
+    (le_refl _) (by decide +kernel) (by decide +kernel), rfl⟩
 
 /-- Non-vacuity: a concrete history with an update sequence that trims, a `+`, a bulk load and a
 dump/load is `Built`, and its state is the expected one. -/
